@@ -722,8 +722,37 @@ def rule_host_tz(ctx) -> None:
     ctx.floor("C01.CLOCK", "timestamp parsers converting with astimezone", n, 2)
 
 
+def rule_process_state(ctx) -> None:
+    """a fresh process and a warm one (earlier turns, another engine state) must write the same bytes: no function on the
+    canonical path keeps results in an object that outlives the call by accident - a mutable default argument the body edits
+    or hands out, or a class-level container edited through self (one object for every instance).  Module-level caches are
+    declared state and are judged by C05.ISO / the hit-vs-fresh rule above."""
+    from .. import hazards
+    mods = [m for m in sorted(set(ORDER_MODULES + TIME_MODULES)) if m in ctx.prog.modules]
+    n_fn = 0
+    n_bad = 0
+    for mn in mods:
+        m = ctx.prog.module(mn)
+        for fn in m.funcs.values():
+            n_fn += 1
+            for pname, d, c in hazards.mutable_defaults(ctx, fn):
+                n_bad += 1
+                ctx.violation("C01.HIST", ctx.okey(f"{fn.qual}/default-argument-keeps-state"), fn.loc(c),
+                              f"the default of `{pname}` (`{src(d)[:30]}`) is created once when the function is defined, and `{src(c)[:50]}` edits it in place or hands it out: what one turn "
+                              "left in it is seen by every later call in the process, so a warm process and a fresh one replay the same turns differently")
+        for cls, attr, d, fn, c in hazards.shared_class_state(ctx, mn):
+            n_bad += 1
+            ctx.violation("C01.HIST", ctx.okey(f"{fn.qual}/class-attribute-keeps-state"), fn.loc(c),
+                          f"`{cls}.{attr}` is a container bound at class level (`{src(d)[:40]}`) and `{src(c)[:50]}` edits it through the instance: every instance - every engine state "
+                          "in the process - shares it, so results depend on what ran before")
+    ctx.floor("C01.HIST", "functions on the canonical path scanned for state that outlives a call", n_fn, 150)
+    ctx.holds("C01.HIST", "canonical-path/no-accidental-process-state", "clematis/engine",
+              f"{n_fn} functions of {len(mods)} modules: {n_bad} mutable default arguments / class-level containers edited in place; " + hazards.controls(ctx, "clematis.engine.health", ["state"]))
+
+
 def run(ctx) -> None:
     _REPORTED.clear()
+    rule_process_state(ctx)
     rule_time(ctx)
     rule_host_tz(ctx)
     rule_hist(ctx)
